@@ -8,7 +8,8 @@ names > i), a list of root fires and a task-set schedule:
    'gen': 0|1,                       manager "running" (generate_events fired every tick; needed for timeouts)
    'rot': [r0, r1, ...],             tick t iterates the task set in insertion order rotated by rot[t % len]
    'n': ticks to run}
-  hspec: {'t': 'p', 'v': int|None, 'r': bool}                     plain handler: returns v(+100*token) or raises
+  hspec: {'t': 'p', 'v': val|None, 'r': bool}                     plain handler: returns v or raises
+         val: 1..9 (produced as v + 100*token) or a falsy non-None result 0 | False | '' (produced as it is)
          {'t': 'g', 'c': 0|1, 'st': [step, ...]}                  generator handler; c = catches TimeoutError
   step:  ['y', v|None] | ['call', nm, tmo|None] | ['wo', nm] | ['wn', nm, tmo|None, fire] | ['r'] | ['f', nm]
 
@@ -72,14 +73,39 @@ class OrderedTasks(set):
         return iter(self.copy())
 
 
+FALSY = [0, False, '']          # falsy non-None handler results; they carry no instance token
+
+
+def real_val(v, tok):
+    """the Python value a scripted handler produces for spec value v in instance tok"""
+    return v + 100 * tok if (type(v) is int and v > 0) else v
+
+
+def val_code(v, tok):
+    """the tagged code of that value in the observable (None / 0 / False / '' are all distinguished)"""
+    if type(v) is int and v > 0:
+        return v + 100 * tok
+    if v is False:
+        return -11
+    if type(v) is int and v == 0:
+        return -10
+    if v == '':
+        return -12
+    raise ValueError(v)
+
+
 def enc_value(x):
     v = x.value
 
     def one(i):
+        if i is False:
+            return -11
         if isinstance(i, bool):
             return -3
         if isinstance(i, int):
-            return i
+            return i if i != 0 else -10
+        if isinstance(i, str):
+            return -12 if i == '' else -2
         if isinstance(i, tuple):
             return -1          # exc_info triple
         return -2
@@ -121,7 +147,7 @@ def run_case(case):
             log.append([0, tok, i])
             if hd['r']:
                 raise Scripted('scripted')
-            return None if hd['v'] is None else hd['v'] + 100 * tok
+            return None if hd['v'] is None else real_val(hd['v'], tok)
         return fn
 
     registry = {}      # id(handler generator) -> (generator, token, handler index)
@@ -146,7 +172,7 @@ def run_case(case):
                 log.append([1, tok, i, k])
                 op = st[0]
                 if op == 'y':
-                    yield None if st[1] is None else st[1] + 100 * tok
+                    yield None if st[1] is None else real_val(st[1], tok)
                 elif op == 'r':
                     raise Scripted('scripted')
                 elif op == 'f':
@@ -338,6 +364,16 @@ def gen_case(rng, tier):
             return case
 
 
+def gen_val(rng, pnone):
+    """a handler result: None, a truthy int 1..9, or one of the falsy non-None values"""
+    x = rng.random()
+    if x < pnone:
+        return None
+    if x < pnone + 0.3:
+        return rng.choice(FALSY)
+    return rng.randint(1, 9)
+
+
 def gen_case1(rng, tier):
     K = rng.randint(2, 5)
     H = {}
@@ -352,7 +388,7 @@ def gen_case1(rng, tier):
             if nm == K - 1 or rng.random() < 0.3:
                 if rng.random() < 0.6 or nm < K - 1:
                     r = raising and rng.random() < 0.3
-                    hs.append({'t': 'p', 'v': None if rng.random() < 0.25 else rng.randint(1, 9), 'r': bool(r)})
+                    hs.append({'t': 'p', 'v': gen_val(rng, 0.2), 'r': bool(r)})
                     continue
             st = []
             for _ in range(rng.choice([0, 1, 1, 2, 2, 3, 4])):
@@ -360,7 +396,7 @@ def gen_case1(rng, tier):
                 tgt = rng.randint(nm + 1, K - 1) if nm < K - 1 else None
                 tmo = rng.choice(TMOS + [2, 5]) if (timeouts and rng.random() < 0.6) else None
                 if tgt is None or x < 0.30:
-                    st.append(['y', None if rng.random() < 0.3 else rng.randint(1, 9)])
+                    st.append(['y', gen_val(rng, 0.25)])
                 elif x < 0.62:
                     st.append(['call', tgt, tmo])
                 elif x < 0.72:
@@ -378,7 +414,7 @@ def gen_case1(rng, tier):
                 elif raising:
                     st.append(['r'])
                 else:
-                    st.append(['y', rng.randint(1, 9)])
+                    st.append(['y', gen_val(rng, 0.0)])
                 if st[-1][0] in ('call', 'wn') and st[-1][2] is not None:
                     need_gen = True
             hs.append({'t': 'g', 'c': 1 if rng.random() < 0.7 else 0, 'st': st})
@@ -400,7 +436,8 @@ def zlit(v):
 
 
 def ozlit(v):
-    return 'None' if v is None else '(Some %s)' % zlit(v)
+    """spec value -> option Z of the model: positive ints as they are (the model adds the token), falsy values as their tags"""
+    return 'None' if v is None else '(Some %s)' % zlit(v if (type(v) is int and v > 0) else val_code(v, 0))
 
 
 def step_lit(st):
@@ -497,11 +534,11 @@ class Trace:
                 if hd['r']:
                     out.append(-1)
                 elif hd['v'] is not None:
-                    out.append(hd['v'] + 100 * tok)
+                    out.append(val_code(hd['v'], tok))
             elif e[0] == 1:
                 st = self.step(tok, e[2], e[3])
                 if st[0] == 'y' and st[1] is not None:
-                    out.append(st[1] + 100 * tok)
+                    out.append(val_code(st[1], tok))
                 elif st[0] == 'r':
                     out.append(-1)
             elif e[0] == 8:
@@ -677,7 +714,7 @@ class C06(Prop):
     thorough_n = 6000
     rule = ('acyclic programs over <= 5 event names (call depth <= 4): plain handlers (return/raise) and generator handlers with '
             '0-4 steps out of yield / call(e[,timeout]) / wait(obj) / wait(name[,timeout]) with or without own fire / fire / raise, '
-            'TimeoutError caught or not, timeouts {0,1,2,3,5,6}, 1-3 roots fired at ticks 0-2 plus late fires of waited-for names, '
+            'TimeoutError caught or not, results from None / 1..9 / 0 / False / \'\' at every return and yield position (tagged in the observable), timeouts {0,1,2,3,5,6}, 1-3 roots fired at ticks 0-2 plus late fires of waited-for names, '
             'task-set order rotated per tick; driven through the real Manager.tick(). non-trivial = at least one call/wait suspension')
     trusted_base = ['hand-written model Model/KTasks.v (of the code with fixes/C06_*.patch applied) tied to the repo by this correspondence run',
                     'python oracle in harness/c06.py (reads only the log written by the scripted handlers, root Values, handler/task tables)']
